@@ -908,4 +908,68 @@ def rdelObs (g rounds : Nat) : Nat × Nat × Nat :=
    (seens.filter fun l => (l.map (·.1)).eraseDups.length != l.length).length,
    (seens.filter fun l => !((l.map (·.1)).contains 1 && (l.map (·.1)).contains 2)).length + (2 * g - seens.length))
 
+/-! ## 8. eighth round: which registered closers reach the App that is closed
+
+    (a) `closep`: a start through the package-level entry points (run.go). `ioc.Register(cs…)` (run.go:18-20) appends ONE
+        option `SetComponents(cs…)` to the package-level slice `registerHandlers`; `ioc.Run(ops…)` (run.go:22-31) makes a new
+        App and runs `append(ops, registerHandlers...)`: the options of the call FIRST, what was registered through
+        `ioc.Register` AFTER them. `App.Run` applies the options in that order (app/app.go:65-68). Of the App only the
+        registry field matters here: `SetRegistry(r)` (app/options.go:20-24) replaces it — `r` is a fresh, empty
+        `support.NewRegistry()` in the scenarios —, `SetComponents(cs…)` (26-32) registers into the registry the App holds AT
+        THAT MOMENT. What is in the registry after the last option is what the start creates, what `App.CloserComponents`
+        collects and what `Close` closes. Components are numbers; the registry is the list of components registered in it.
+    (b) `closek`: every registered component gets its definition in the tag scanners
+        (container/processors/default_tag_scan_definition_registry_post_processor.go:17-18): the FIRST statement of the scan
+        of a component is `registry.GetMetaOrRegister(componentName, component)`, for every component, whatever its Go
+        kind; a component without definition is never created, never collected as a closer, never closed. `scanDefined guard`
+        = the components that get a definition when the scanner reaches that statement only for kinds satisfying `guard`;
+        the code has no guard (`fun _ => true`). -/
+
+inductive ROpt
+  | setRegistry                        -- app.SetRegistry(support.NewRegistry())
+  | setComponents (ids : List Nat)     -- app.SetComponents(cs…)
+  deriving DecidableEq, Repr
+
+/-- one option applied to the App's registry (app/options.go:20-32) -/
+def applyOpt (reg : List Nat) : ROpt → List Nat
+  | .setRegistry => []
+  | .setComponents ids => reg ++ ids
+
+/-- the option loop of App.Run (app/app.go:65-68) on a new App (empty default registry) -/
+def applyOpts (ops : List ROpt) : List Nat := ops.foldl applyOpt []
+
+/-- ioc.Register (run.go:18-20) -/
+def iocRegister (handlers : List ROpt) (ids : List Nat) : List ROpt := handlers ++ [.setComponents ids]
+
+/-- the option list ioc.Run hands to App.Run (run.go:27): `append(ops, registerHandlers...)` -/
+def iocRunOptions (ops handlers : List ROpt) : List ROpt := ops ++ handlers
+
+/-- the registry of the App `ioc.Run(ops…)` returns -/
+def iocRunRegistry (ops handlers : List ROpt) : List Nat := applyOpts (iocRunOptions ops handlers)
+
+def ROpt.isComponents : ROpt → Bool
+  | .setComponents _ => true
+  | .setRegistry => false
+
+def ROpt.ids : ROpt → List Nat
+  | .setComponents ids => ids
+  | .setRegistry => []
+
+/-- the Go kinds of the registered components of `closek` (pointer to struct; pointer to a named integer / slice / string /
+    map; a named channel) -/
+inductive CKind
+  | struct | int | slice | chan | text | map
+  deriving DecidableEq, Repr
+
+/-- the components that get a definition when the tag scan reaches `GetMetaOrRegister` for the kinds satisfying `guard` -/
+def scanDefined {α : Type} (guard : CKind → Bool) (comps : List (α × CKind)) : List α :=
+  (comps.filter fun c => guard c.2).map (·.1)
+
+/-- the guard of the code: none -/
+def codeScanGuard : CKind → Bool := fun _ => true
+
+/-- "tags live on struct fields only": the guard the code does NOT have -/
+def structOnlyGuard : CKind → Bool := fun k => k == .struct
+
+
 end Ioc.Conc
